@@ -549,7 +549,10 @@ theorem apply_dims (t : ATerm) (cmd : Cmd) : (t.apply cmd).w = t.w ∧ (t.apply 
       · simp
       · exact ⟨rfl, rfl⟩
     · exact ⟨rfl, rfl⟩
-  | insertChar => simp only [ATerm.apply]; split <;> exact ⟨rfl, rfl⟩
+  | insertChar =>
+    simp only [ATerm.apply]; split
+    · split <;> exact ⟨rfl, rfl⟩
+    · exact ⟨rfl, rfl⟩
   | goto x y => exact ⟨rfl, rfl⟩
   | setPen s => exact ⟨rfl, rfl⟩
   | hideCursor => exact ⟨rfl, rfl⟩
@@ -691,8 +694,70 @@ theorem resize_diff (s : Scr) (w h : Int) (hne : ¬ (w = s.w ∧ h = s.h)) :
     s.resize (some (w, h)) = { s with cx := -1, cy := -1, cells := (s.cells.resize w h).invalidate, w := w, h := h } := by
   simp [Scr.resize, hne]
 
+/-! ### the side condition of the corner-trick theorems, on histories -/
+
+theorem CornerSafe.of_plain {c : DrawCfg} (hct : c.Plain) (s : Scr) : CornerSafe c s := by
+  intro h; rw [hct.ct] at h; exact absurd h (by decide)
+
+/-- a draw changes neither the size nor the locks: the side condition may be read off the screen the draw leaves -/
+theorem CornerSafe.of_draw {c : DrawCfg} {s : Scr} (h : CornerSafe c (s.draw c).1) : CornerSafe c s := by
+  have r := (draw_rel c s).1
+  intro hc
+  obtain ⟨h2, hul⟩ := h hc
+  refine ⟨by rw [r.w] at h2; exact h2, ?_⟩
+  intro i
+  have := hul i
+  rw [r.h, locked_congr ({ s with clear := false } : Scr).cells _ r.cw r.ch (fun i j => (r.cells i j).2.2.2.1)] at this
+  exact this
+
+/-- executable form of `CornerSafe` (the hypothesis is decidable) -/
+def cornerSafeB (c : DrawCfg) (s : Scr) : Bool :=
+  !c.cornerTrick || (decide (2 ≤ s.w) && (List.range s.cells.w.toNat).all fun k => !(s.cells.locked (Int.ofNat k) (s.h - 1)))
+
+theorem cornerSafe_of_B {c : DrawCfg} {s : Scr} (h : cornerSafeB c s = true) : CornerSafe c s := by
+  intro hc
+  simp only [cornerSafeB, hc, Bool.not_true, Bool.false_or, Bool.and_eq_true, decide_eq_true_eq, List.all_eq_true,
+    List.mem_range, Bool.not_eq_true'] at h
+  refine ⟨h.1, ?_⟩
+  intro i
+  by_cases hi : 0 ≤ i ∧ i < s.cells.w
+  · have := h.2 i.toNat (by omega)
+    have e : Int.ofNat i.toNat = i := by simp [Int.toNat_of_nonneg hi.1]
+    rw [e] at this; exact this
+  · simp only [Buf.locked, inRange_iff]
+    rw [if_neg (by omega)]
+
+/-- THE SIDE CONDITION for one operation performed in world `wd`: if the operation draws (Show, Sync, a resize that
+reaches the library), the screen it leaves — draws change neither sizes nor locks, so equally the screen the draw
+starts from — satisfies `CornerSafe`: on a terminal that needs the bottom-right insert-character trick it is at least
+two columns wide and no cell of its last row is locked.  Vacuous when `c.cornerTrick = false`. -/
+def World.SafeAt (c : DrawCfg) (wd : World) (op : ScrOp) : Prop :=
+  match op with
+  | .show => CornerSafe c (wd.step c .show).sw.s
+  | .sync => CornerSafe c (wd.step c .sync).sw.s
+  | .ttyResizeNotify w h => CornerSafe c (wd.step c (.ttyResizeNotify w h)).sw.s
+  | _ => True
+
+/-- the side condition along a whole history -/
+def World.SafeRun (c : DrawCfg) : World → List ScrOp → Prop
+  | _, [] => True
+  | wd, op :: ops => wd.SafeAt c op ∧ World.SafeRun c (wd.step c op) ops
+
+theorem World.SafeAt.of_plain {c : DrawCfg} (hct : c.Plain) (wd : World) (op : ScrOp) : wd.SafeAt c op := by
+  cases op <;> first | trivial | exact CornerSafe.of_plain hct _
+
+theorem World.SafeRun.of_plain {c : DrawCfg} (hct : c.Plain) : ∀ (ops : List ScrOp) (wd : World), World.SafeRun c wd ops
+  | [], _ => trivial
+  | op :: ops, wd => ⟨World.SafeAt.of_plain hct wd op, World.SafeRun.of_plain hct ops _⟩
+
+theorem World.SafeRun.append {c : DrawCfg} : ∀ (ops : List ScrOp) (wd : World) (op : ScrOp),
+    World.SafeRun c wd ops → (wd.run c ops).SafeAt c op → World.SafeRun c wd (ops ++ [op])
+  | [], _, _, _, h => ⟨h, trivial⟩
+  | o :: ops, wd, op, h1, h2 => ⟨h1.1, World.SafeRun.append ops _ op h1.2 (by simpa [World.run] using h2)⟩
+
 /-- Show: the invariant is kept, and if the display was trusted (or the size change is noticed now) it is right afterwards -/
-theorem show_step {c : DrawCfg} (hrw : RwOk c.rw) (hct : c.Plain) {wd : World} (inv : WInv c wd) :
+theorem show_step_c {c : DrawCfg} (hrw : RwOk c.rw) (hct : c.Walk) {wd : World} (inv : WInv c wd)
+    (hsafe : CornerSafe c (wd.step c .show).sw.s) :
     WInv c (wd.step c .show) ∧
     ((wd.trusted = true ∨ ¬ (wd.sw.ttyw = wd.sw.s.w ∧ wd.sw.ttyh = wd.sw.s.h)) →
       Displays c (wd.sw.s.resize (some (wd.sw.ttyw, wd.sw.ttyh))).cells (wd.step c .show)) := by
@@ -704,6 +769,8 @@ theorem show_step {c : DrawCfg} (hrw : RwOk c.rw) (hct : c.Plain) {wd : World} (
         { sw := { wd.sw with s := (wd.sw.s.draw c).1 }, t := wd.t.applyAll (wd.sw.s.draw c).2, trusted := wd.trusted,
           d := if wd.fresh then some wd.sw.s.style else if wd.d = some wd.sw.s.style then wd.d else none, fresh := false } := by
       simp only [World.step, ScrW.step, Scr.show, hfini, hsz, resize_same_size, and_self, if_true, Bool.false_eq_true, if_false]
+    rw [hstep] at hsafe
+    have hsafe0 : CornerSafe c wd.sw.s := CornerSafe.of_draw hsafe
     rw [hstep, hres]
     have pre : BufOk c wd.sw.s wd.t :=
       { tw := by rw [inv.tdim.1, hsz.1], th := by rw [inv.tdim.2, hsz.2], cw := inv.buf.cw, ch := inv.buf.ch,
@@ -724,7 +791,7 @@ theorem show_step {c : DrawCfg} (hrw : RwOk c.rw) (hct : c.Plain) {wd : World} (
         · exact absurd hsz h
     · have sinv := inv.tr htr
       cases hfr : wd.fresh
-      · have dp := draw_post hrw hct (d := wd.d) pre (fun _ => sinv) (by intro h; rw [inv.clear] at h; exact absurd h (by simp))
+      · have dp := draw_post hrw hct (d := wd.d) pre (fun _ => sinv) (by intro h; rw [inv.clear] at h; exact absurd h (by simp)) hsafe0
         simp only [Bool.false_eq_true, if_false]
         refine ⟨{ buf := ?_, tdim := ?_, clear := dp.clear_done, fini := by rw [dp.fini_same]; exact inv.fini,
                   mism := ?_, tr := fun _ => dp.sync, fr := by intro h; exact absurd h (by simp) }, ?_⟩
@@ -735,7 +802,7 @@ theorem show_step {c : DrawCfg} (hrw : RwOk c.rw) (hct : c.Plain) {wd : World} (
         · intro _; exact displays_of_drawPost hrw pre dp _ _ _ rfl
       · have hall := inv.fr hfr
         have dp := draw_post hrw hct (d := some wd.sw.s.style) pre (fun _ => sinv.of_allDirty hall)
-          (by intro h; rw [inv.clear] at h; exact absurd h (by simp))
+          (by intro h; rw [inv.clear] at h; exact absurd h (by simp)) hsafe0
         simp only [if_true] at dp ⊢
         refine ⟨{ buf := ?_, tdim := ?_, clear := dp.clear_done, fini := by rw [dp.fini_same]; exact inv.fini,
                   mism := ?_, tr := fun _ => dp.sync, fr := by intro h; exact absurd h (by simp) }, ?_⟩
@@ -753,6 +820,8 @@ theorem show_step {c : DrawCfg} (hrw : RwOk c.rw) (hct : c.Plain) {wd : World} (
         { sw := { wd.sw with s := (s1.draw c).1 }, t := wd.t.applyAll (s1.draw c).2, trusted := true,
           d := some wd.sw.s.style, fresh := false } := by
       simp only [World.step, ScrW.step, Scr.show, hfini, hres, hsz, if_false, Bool.false_eq_true]
+    rw [hstep] at hsafe
+    have hsafe1 : CornerSafe c s1 := CornerSafe.of_draw hsafe
     rw [hstep, hres]
     have ok := resize_invalidate_ok hrw wd.sw.s wd.sw.ttyw wd.sw.ttyh inv.buf
     rw [hs1] at ok
@@ -761,7 +830,7 @@ theorem show_step {c : DrawCfg} (hrw : RwOk c.rw) (hct : c.Plain) {wd : World} (
     have hg : ∀ x y, wd.t.grid x y = .garbage := inv.mism (by omega)
     have sinv : SyncInv c (some s1.style) s1 wd.t :=
       SyncInv.fresh (by rw [inv.tdim.1, e1.1]) (by rw [inv.tdim.2, e1.2.1]) ok.1.cw ok.1.ch ok.1.wok ok.1.valid ok.2 hg
-    have dp := draw_post hrw hct (d := some s1.style) sinv.bufOk (fun _ => sinv) (fun _ => ok.2)
+    have dp := draw_post hrw hct (d := some s1.style) sinv.bufOk (fun _ => sinv) (fun _ => ok.2) hsafe1
     simp only [if_true] at dp
     rw [e1.2.2.1] at dp
     refine ⟨{ buf := ?_, tdim := ?_, clear := dp.clear_done, fini := by rw [dp.fini_same]; exact e1.2.2.2.2,
@@ -805,7 +874,8 @@ theorem prep_ok {c : DrawCfg} (hrw : RwOk c.rw) (s : Scr) (w h : Int) (hb : BufO
   · exact ok2.2
 
 /-- Sync: whatever the display held before, afterwards it is right and trusted -/
-theorem sync_step {c : DrawCfg} (hrw : RwOk c.rw) (hct : c.Plain) {wd : World} (inv : WInv c wd) :
+theorem sync_step_c {c : DrawCfg} (hrw : RwOk c.rw) (hct : c.Walk) {wd : World} (inv : WInv c wd)
+    (hsafe : CornerSafe c (wd.step c .sync).sw.s) :
     WInv c (wd.step c .sync) ∧ Displays c (wd.sw.s.prepSync (some (wd.sw.ttyw, wd.sw.ttyh))).cells (wd.step c .sync) ∧
     (wd.step c .sync).trusted = true ∧
     (wd.step c .sync).d = some (wd.step c .sync).sw.s.style := by
@@ -817,11 +887,13 @@ theorem sync_step {c : DrawCfg} (hrw : RwOk c.rw) (hct : c.Plain) {wd : World} (
       { sw := { wd.sw with s := (s2.draw c).1 }, t := wd.t.applyAll (s2.draw c).2, trusted := true,
         d := some wd.sw.s.style, fresh := false } := by
     simp only [World.step, ScrW.step, Scr.sync, hfini, Bool.false_eq_true, if_false, hs2]
+  rw [hstep] at hsafe
+  have hsafe2 : CornerSafe c s2 := CornerSafe.of_draw hsafe
   rw [hstep]
   have pre : BufOk c s2 wd.t :=
     { tw := by rw [inv.tdim.1, e1], th := by rw [inv.tdim.2, e2], cw := okb.cw, ch := okb.ch, wok := okb.wok, valid := okb.valid }
   have dp := draw_post hrw hct (d := some s2.style) pre
-    (by intro h; rw [e5] at h; exact absurd h (by simp)) (fun _ => okd)
+    (by intro h; rw [e5] at h; exact absurd h (by simp)) (fun _ => okd) hsafe2
   simp only [if_true] at dp
   rw [e3] at dp
   refine ⟨{ buf := ?_, tdim := ?_, clear := dp.clear_done, fini := by rw [dp.fini_same]; exact e4,
@@ -834,7 +906,8 @@ theorem sync_step {c : DrawCfg} (hrw : RwOk c.rw) (hct : c.Plain) {wd : World} (
   · simp only [dp.style_same, e3]
 
 /-- a window resize that reaches the library (mainLoop's resize branch): afterwards the display is right and trusted -/
-theorem notify_step {c : DrawCfg} (hrw : RwOk c.rw) (hct : c.Plain) {wd : World} (inv : WInv c wd) (w h : Int) :
+theorem notify_step_c {c : DrawCfg} (hrw : RwOk c.rw) (hct : c.Walk) {wd : World} (inv : WInv c wd) (w h : Int)
+    (hsafe : CornerSafe c (wd.step c (.ttyResizeNotify w h)).sw.s) :
     WInv c (wd.step c (.ttyResizeNotify w h)) ∧
     Displays c (wd.sw.s.prepResize (some (w, h))).cells (wd.step c (.ttyResizeNotify w h)) ∧
     (wd.step c (.ttyResizeNotify w h)).trusted = true ∧
@@ -846,10 +919,12 @@ theorem notify_step {c : DrawCfg} (hrw : RwOk c.rw) (hct : c.Plain) {wd : World}
       { sw := { s := (s2.draw c).1, ttyw := w, ttyh := h }, t := (wd.t.resized w h).applyAll (s2.draw c).2, trusted := true,
         d := some wd.sw.s.style, fresh := false } := by
     simp only [World.step, ScrW.step, Scr.onResize, hs2]
+  rw [hstep] at hsafe
+  have hsafe2 : CornerSafe c s2 := CornerSafe.of_draw hsafe
   rw [hstep]
   have sinv : SyncInv c (some s2.style) s2 (wd.t.resized w h) :=
     SyncInv.fresh (by rw [e1]; rfl) (by rw [e2]; rfl) okb.cw okb.ch okb.wok okb.valid okd (fun _ _ => rfl)
-  have dp := draw_post hrw hct (d := some s2.style) sinv.bufOk (fun _ => sinv) (fun _ => okd)
+  have dp := draw_post hrw hct (d := some s2.style) sinv.bufOk (fun _ => sinv) (fun _ => okd) hsafe2
   simp only [if_true] at dp
   rw [e3] at dp
   refine ⟨{ buf := ?_, tdim := ?_, clear := dp.clear_done, fini := by rw [dp.fini_same]; exact e4,
@@ -877,8 +952,8 @@ theorem winv_bufop {c : DrawCfg} {wd : World} (inv : WInv c wd) (b' : Buf) (hb :
     fr := fun h x y hr => hb.dirty x y (inv.fr h x y (by simpa [inRange_iff, hb.w, hb.h] using hr)) }
 
 /-- every operation preserves the world invariant -/
-theorem step_inv {c : DrawCfg} (hrw : RwOk c.rw) (hct : c.Plain) {wd : World} (inv : WInv c wd) (op : ScrOp)
-    (hv : op.Valid c) : WInv c (wd.step c op) := by
+theorem step_inv_c {c : DrawCfg} (hrw : RwOk c.rw) (hct : c.Walk) {wd : World} (inv : WInv c wd) (op : ScrOp)
+    (hv : op.Valid c) (hsafe : wd.SafeAt c op) : WInv c (wd.step c op) := by
   cases op with
   | setContent x y m comb st =>
     exact winv_bufop inv _ (bufStep_setContent c.rw _ x y m comb st hv)
@@ -917,12 +992,12 @@ theorem step_inv {c : DrawCfg} (hrw : RwOk c.rw) (hct : c.Plain) {wd : World} (i
   | setCursorStyle cs cc =>
     exact { buf := ⟨inv.buf.cw, inv.buf.ch, inv.buf.wok, inv.buf.valid⟩, tdim := inv.tdim, clear := inv.clear, fini := inv.fini,
             mism := inv.mism, tr := fun h => (inv.tr h).congr rfl rfl rfl rfl rfl rfl rfl, fr := inv.fr }
-  | «show» => exact (show_step hrw hct inv).1
-  | sync => exact (sync_step hrw hct inv).1
+  | «show» => exact (show_step_c hrw hct inv hsafe).1
+  | sync => exact (sync_step_c hrw hct inv hsafe).1
   | ttyResizeQuiet w h =>
     exact { buf := inv.buf, tdim := ⟨rfl, rfl⟩, clear := inv.clear, fini := inv.fini, mism := fun _ _ _ => rfl,
             tr := by intro h; exact absurd h (by simp [World.step]), fr := inv.fr }
-  | ttyResizeNotify w h => exact (notify_step hrw hct inv w h).1
+  | ttyResizeNotify w h => exact (notify_step_c hrw hct inv w h hsafe).1
   | corrupt =>
     exact { buf := inv.buf, tdim := inv.tdim, clear := inv.clear, fini := inv.fini, mism := fun _ _ _ => rfl,
             tr := by intro h; exact absurd h (by simp [World.step]), fr := inv.fr }
@@ -967,56 +1042,124 @@ theorem init_inv {c : DrawCfg} (hrw : RwOk c.rw) (w h : Int) : WInv c (World.ini
     · obtain ⟨rfl, rfl⟩ := hh; rw [resize_same]; rfl
     · rw [resize_cells _ _ _ _ _ hh]; split <;> rfl
 
-/-- every world reachable from Init by valid operations satisfies the invariant -/
-theorem reach_inv {c : DrawCfg} (hrw : RwOk c.rw) (hct : c.Plain) (w h : Int) (ops : List ScrOp)
-    (hv : ∀ op ∈ ops, op.Valid c) : WInv c ((World.init w h).run c ops) := by
-  suffices H : ∀ wd, WInv c wd → WInv c (wd.run c ops) from H _ (init_inv hrw w h)
+/-- every world reachable from Init by valid operations satisfies the invariant — on corner-trick terminals as long as
+the side condition held at every draw -/
+theorem reach_inv_c {c : DrawCfg} (hrw : RwOk c.rw) (hct : c.Walk) (w h : Int) (ops : List ScrOp)
+    (hv : ∀ op ∈ ops, op.Valid c) (hsafe : World.SafeRun c (World.init w h) ops) : WInv c ((World.init w h).run c ops) := by
+  suffices H : ∀ wd, WInv c wd → World.SafeRun c wd ops → WInv c (wd.run c ops) from H _ (init_inv hrw w h) hsafe
+  clear hsafe
   induction ops with
-  | nil => intro wd h; exact h
+  | nil => intro wd h _; exact h
   | cons op ops ih =>
-    intro wd hw
+    intro wd hw hs
     simp only [World.run, List.foldl_cons]
-    exact ih (fun o ho => hv o (List.mem_cons_of_mem _ ho)) _ (step_inv hrw hct hw op (hv op (List.mem_cons_self ..)))
+    exact ih (fun o ho => hv o (List.mem_cons_of_mem _ ho)) _ (step_inv_c hrw hct hw op (hv op (List.mem_cons_self ..)) hs.1) hs.2
+
+/-! the same for the configurations without the corner trick (no side condition) -/
+
+theorem show_step {c : DrawCfg} (hrw : RwOk c.rw) (hct : c.Plain) {wd : World} (inv : WInv c wd) :
+    WInv c (wd.step c .show) ∧
+    ((wd.trusted = true ∨ ¬ (wd.sw.ttyw = wd.sw.s.w ∧ wd.sw.ttyh = wd.sw.s.h)) →
+      Displays c (wd.sw.s.resize (some (wd.sw.ttyw, wd.sw.ttyh))).cells (wd.step c .show)) :=
+  show_step_c hrw hct.walk inv (CornerSafe.of_plain hct _)
+
+theorem sync_step {c : DrawCfg} (hrw : RwOk c.rw) (hct : c.Plain) {wd : World} (inv : WInv c wd) :
+    WInv c (wd.step c .sync) ∧ Displays c (wd.sw.s.prepSync (some (wd.sw.ttyw, wd.sw.ttyh))).cells (wd.step c .sync) ∧
+    (wd.step c .sync).trusted = true ∧
+    (wd.step c .sync).d = some (wd.step c .sync).sw.s.style :=
+  sync_step_c hrw hct.walk inv (CornerSafe.of_plain hct _)
+
+theorem notify_step {c : DrawCfg} (hrw : RwOk c.rw) (hct : c.Plain) {wd : World} (inv : WInv c wd) (w h : Int) :
+    WInv c (wd.step c (.ttyResizeNotify w h)) ∧
+    Displays c (wd.sw.s.prepResize (some (w, h))).cells (wd.step c (.ttyResizeNotify w h)) ∧
+    (wd.step c (.ttyResizeNotify w h)).trusted = true ∧
+    (wd.step c (.ttyResizeNotify w h)).d = some (wd.step c (.ttyResizeNotify w h)).sw.s.style :=
+  notify_step_c hrw hct.walk inv w h (CornerSafe.of_plain hct _)
+
+theorem step_inv {c : DrawCfg} (hrw : RwOk c.rw) (hct : c.Plain) {wd : World} (inv : WInv c wd) (op : ScrOp)
+    (hv : op.Valid c) : WInv c (wd.step c op) :=
+  step_inv_c hrw hct.walk inv op hv (World.SafeAt.of_plain hct wd op)
+
+theorem reach_inv {c : DrawCfg} (hrw : RwOk c.rw) (hct : c.Plain) (w h : Int) (ops : List ScrOp)
+    (hv : ∀ op ∈ ops, op.Valid c) : WInv c ((World.init w h).run c ops) :=
+  reach_inv_c hrw hct.walk w h ops hv (World.SafeRun.of_plain hct ops _)
 
 end Tcell
 
 namespace Tcell
 open Buf
 
-/-- which cells a Show sends payload to, when the display is trusted and the size is unchanged -/
+/-- which cells a Show sends payload to, when the display is trusted and the size is unchanged: cells that were dirty and
+visited, and — bottom-right corner trick — the second to last column of the last row and the cell covering it when the
+corner cell is repainted (`CornerWrite`) -/
+theorem show_writes_c {c : DrawCfg} (hrw : RwOk c.rw) (hct : c.Walk) {wd : World} (inv : WInv c wd)
+    (hsafe : CornerSafe c (wd.step c .show).sw.s)
+    (htr : wd.trusted = true) (hsz : wd.sw.ttyw = wd.sw.s.w ∧ wd.sw.ttyh = wd.sw.s.h) :
+    ∃ ws, (wd.step c .show).t.writes = ws ++ wd.t.writes ∧
+      ∀ p ∈ ws, (wd.sw.s.cells.dirty p.1 p.2 = true ∧ visitedG c wd.sw.s.cells p.1 p.2 = true) ∨
+        CornerWrite c wd.sw.s.cells p := by
+  have hfini := inv.fini
+  have hstep : wd.step c .show =
+      { sw := { wd.sw with s := (wd.sw.s.draw c).1 }, t := wd.t.applyAll (wd.sw.s.draw c).2, trusted := wd.trusted,
+        d := if wd.fresh then some wd.sw.s.style else if wd.d = some wd.sw.s.style then wd.d else none, fresh := false } := by
+    simp only [World.step, ScrW.step, Scr.show, hfini, hsz, resize_same_size, and_self, if_true, Bool.false_eq_true, if_false]
+  rw [hstep] at hsafe ⊢
+  have pre : BufOk c wd.sw.s wd.t :=
+    { tw := by rw [inv.tdim.1, hsz.1], th := by rw [inv.tdim.2, hsz.2], cw := inv.buf.cw, ch := inv.buf.ch,
+      wok := inv.buf.wok, valid := inv.buf.valid }
+  have dp := draw_post hrw hct (d := wd.d) pre (fun _ => inv.tr htr) (by intro h; rw [inv.clear] at h; exact absurd h (by simp))
+    (CornerSafe.of_draw hsafe)
+  exact dp.writes
+
 theorem show_writes {c : DrawCfg} (hrw : RwOk c.rw) (hct : c.Plain) {wd : World} (inv : WInv c wd)
     (htr : wd.trusted = true) (hsz : wd.sw.ttyw = wd.sw.s.w ∧ wd.sw.ttyh = wd.sw.s.h) :
     ∃ ws, (wd.step c .show).t.writes = ws ++ wd.t.writes ∧
       ∀ p ∈ ws, wd.sw.s.cells.dirty p.1 p.2 = true ∧ visitedG c wd.sw.s.cells p.1 p.2 = true := by
-  have hfini := inv.fini
-  have hstep : (wd.step c .show).t = wd.t.applyAll (wd.sw.s.draw c).2 := by
-    simp only [World.step, ScrW.step, Scr.show, hfini, hsz, resize_same_size, and_self, if_true, Bool.false_eq_true, if_false]
-  rw [hstep]
-  have pre : BufOk c wd.sw.s wd.t :=
-    { tw := by rw [inv.tdim.1, hsz.1], th := by rw [inv.tdim.2, hsz.2], cw := inv.buf.cw, ch := inv.buf.ch,
-      wok := inv.buf.wok, valid := inv.buf.valid }
-  have dp := draw_post hrw hct (d := wd.d) pre (fun _ => inv.tr htr) (by intro h; rw [inv.clear] at h; exact absurd h (by simp))
-  exact dp.writes
+  obtain ⟨ws, h1, h2⟩ := show_writes_c hrw hct.walk inv (CornerSafe.of_plain hct _) htr hsz
+  refine ⟨ws, h1, fun p hp => ?_⟩
+  rcases h2 p hp with h | h
+  · exact h
+  · have := h.1; rw [hct.ct] at this; exact absurd this (by decide)
 
 end Tcell
 
 namespace Tcell
 open Buf
 
-/-- which cells the payloads of a Show occupy (addressed cells and right halves of two-column glyphs), when the display is
-trusted and the size is unchanged: with the locked-neighbour guard compiled in none of them is locked -/
-theorem show_covers {c : DrawCfg} (hrw : RwOk c.rw) (hct : c.Plain) (hg : c.guardLocked = true) {wd : World} (inv : WInv c wd)
+/-- which cells the payloads of a Show occupy (addressed cells and right halves of two-column glyphs, and the cells an
+inserted character shifts), when the display is trusted and the size is unchanged: with the locked-neighbour guard
+compiled in none of them is locked -/
+theorem show_covers_c {c : DrawCfg} (hrw : RwOk c.rw) (hct : c.Walk) (hg : c.guardLocked = true) {wd : World} (inv : WInv c wd)
+    (hsafe : CornerSafe c (wd.step c .show).sw.s)
     (htr : wd.trusted = true) (hsz : wd.sw.ttyw = wd.sw.s.w ∧ wd.sw.ttyh = wd.sw.s.h) :
     ∃ cs, (wd.step c .show).t.covered = cs ++ wd.t.covered ∧ ∀ p ∈ cs, wd.sw.s.cells.locked p.1 p.2 = false := by
   have hfini := inv.fini
-  have hstep : (wd.step c .show).t = wd.t.applyAll (wd.sw.s.draw c).2 := by
+  have hstep : wd.step c .show =
+      { sw := { wd.sw with s := (wd.sw.s.draw c).1 }, t := wd.t.applyAll (wd.sw.s.draw c).2, trusted := wd.trusted,
+        d := if wd.fresh then some wd.sw.s.style else if wd.d = some wd.sw.s.style then wd.d else none, fresh := false } := by
     simp only [World.step, ScrW.step, Scr.show, hfini, hsz, resize_same_size, and_self, if_true, Bool.false_eq_true, if_false]
-  rw [hstep]
+  rw [hstep] at hsafe ⊢
   have pre : BufOk c wd.sw.s wd.t :=
     { tw := by rw [inv.tdim.1, hsz.1], th := by rw [inv.tdim.2, hsz.2], cw := inv.buf.cw, ch := inv.buf.ch,
       wok := inv.buf.wok, valid := inv.buf.valid }
   have dp := draw_post hrw hct (d := wd.d) pre (fun _ => inv.tr htr) (by intro h; rw [inv.clear] at h; exact absurd h (by simp))
+    (CornerSafe.of_draw hsafe)
   obtain ⟨cs, h1, h2⟩ := dp.covers
   exact ⟨cs, h1, h2 hg⟩
+
+theorem show_covers {c : DrawCfg} (hrw : RwOk c.rw) (hct : c.Plain) (hg : c.guardLocked = true) {wd : World} (inv : WInv c wd)
+    (htr : wd.trusted = true) (hsz : wd.sw.ttyw = wd.sw.s.w ∧ wd.sw.ttyh = wd.sw.s.h) :
+    ∃ cs, (wd.step c .show).t.covered = cs ++ wd.t.covered ∧ ∀ p ∈ cs, wd.sw.s.cells.locked p.1 p.2 = false :=
+  show_covers_c hrw hct.walk hg inv (CornerSafe.of_plain hct _) htr hsz
+
+/-- the side condition stated on the screen a Show (no size change) leaves is the side condition on the screen it starts from -/
+theorem cornerSafe_before_show {c : DrawCfg} {wd : World} (inv : WInv c wd)
+    (hsz : wd.sw.ttyw = wd.sw.s.w ∧ wd.sw.ttyh = wd.sw.s.h) (hsafe : CornerSafe c (wd.step c .show).sw.s) :
+    CornerSafe c wd.sw.s := by
+  have hfini := inv.fini
+  have hstep : (wd.step c .show).sw.s = (wd.sw.s.draw c).1 := by
+    simp only [World.step, ScrW.step, Scr.show, hfini, hsz, resize_same_size, and_self, if_true, Bool.false_eq_true, if_false]
+  rw [hstep] at hsafe
+  exact CornerSafe.of_draw hsafe
 
 end Tcell
